@@ -11,7 +11,7 @@ pub const NUMBERS: &[&str] = &[
     "-129", "65535", "65536", "4294967295", "4294967296", "18446744073709551609", "18446744073709551610", "18446744073709551615",
     "18446744073709551616", "-9223372036854775808", "-9223372036854775809", "1000000000000000000000", "1000000000000000000001",
     "269", "275", "300", "-243", "-237", "65549", "65551", "4294967309", "18446744073709551629", "340282366920938463463374607431768211456",
-    "13.0", "16.5", "1.6e1", "16e0", "1e3", "13.999999999999999", "0.5", "1.0", "1.0000001", "-0.0", "1e400", "-1e400", "1e-400", "5e-324", "1.5", "16.0", "1e1", "0.99999994",
+    "1e39", "-1e39", "3.5e38", "-3.5e38", "3.4028236e38", "1e300", "-1e300", "13.0", "16.5", "1.6e1", "16e0", "1e3", "13.999999999999999", "0.5", "1.0", "1.0000001", "-0.0", "1e400", "-1e400", "1e-400", "5e-324", "1.5", "16.0", "1e1", "0.99999994",
 ];
 
 const JSON: &[&str] = &[
